@@ -5,7 +5,9 @@ META = {
             "(one seed per (wallet, safe block hash), one leader rank per (seed, number of unique operators), one heartbeat draw per seed); "
             "TLC checks on all pairs of calls that the leader is an operator, is invariant under permutation and repetition of the operator "
             "list and of the calls served before by the (long-lived) executor instance, that the checklist has the coded shape and order and "
-            "that the window index arithmetic is right; a hazard grain (cached operator list shuffled in place) shows the history dependence "
+            "that the window index arithmetic is right, and that a checklist / allowed-actions slice held by a caller never changes afterwards and "
+            "depends on its seed and window only while several wallets' executors interleave in one process (heap of backing arrays; hazard grain "
+            "of shared package-level arrays refuted by TLC); a hazard grain (cached operator list shuffled in place) shows the history dependence "
             "in the model. The call history of the real functions on three members that each keep ONE executor per wallet and view for the "
             "whole run and serve the seeds in different orders and subsets (plus fresh-executor controls), for operator lists (length <= 4 over 4 operators) and window enumerated by TLC and many "
             "concrete wallets / block hashes, is validated by TLC against the same module: one hidden choice must explain all calls.",
@@ -23,12 +25,16 @@ def run(ctx):
     import re
     for cfg in ctx.pick(["MC_Coordination"], ["MC_Coordination_T", "MC_Coordination3_T"]):
         r = ctx.tlc(SPEC, "Coordination", cfg=cfg, coverage=True, label=cfg, timeout=2400)
-        ctx.require_coverage(r, ["NewExecutor", "GetSeed", "GetSeedFails", "GetLeader", "GetChecklist"], cfg)
+        ctx.require_coverage(r, ["NewExecutor", "GetSeed", "GetSeedFails", "GetLeader", "GetChecklist", "DoAppendNoop"], cfg)
     # hazard grain (an executor that caches its operator list and shuffles it in place): the model must
     # show the history dependence, otherwise LeaderHistoryIndependent / LeaderIdempotent are vacuous
     hz = ctx.tlc(SPEC, "Coordination", cfg="MC_Hazard", label="MC_Hazard", expect=("violation",), dump_trace=False)
     if hz.violated != "LeaderHistoryIndependent":
         ctx.broken("hazard model violated %s instead of LeaderHistoryIndependent" % hz.violated)
+    # hazard grain of precomputed package-level checklists returned by reference (shared backing array)
+    hz = ctx.tlc(SPEC, "Coordination", cfg="MC_HazardShared", label="MC_HazardShared", expect=("violation",), dump_trace=False)
+    if hz.violated != "ChecklistStable":
+        ctx.broken("shared-array hazard model violated %s instead of ChecklistStable" % hz.violated)
     if ctx.thorough:
         hz = ctx.tlc(SPEC, "Coordination", cfg="MC_HazardIdem", label="MC_HazardIdem", expect=("violation",), dump_trace=False)
         if hz.violated != "LeaderIdempotent":
@@ -37,12 +43,17 @@ def run(ctx):
     cases = ctx.read_emitted(g, "cases.ndjson")
     if len(cases) != 340 + 17:
         ctx.broken("expected 357 generated cases, got %d" % len(cases))
-    go = ctx.gotest(PKG, "^TestVerif_C22_", ["c22_test.go"], inputs={"cases.ndjson": cases},
+    go = ctx.gotest(PKG, "^TestVerif_C22_", ["c22_test.go", "c22_coordinate_test.go"], inputs={"cases.ndjson": cases},
                     env={"VERIF_SEEDS": ctx.pick(24, 100), "VERIF_HB_SEEDS": ctx.pick(4, 16),
-                         "VERIF_VIEWS": ctx.pick(6, 10)},
+                         "VERIF_VIEWS": ctx.pick(6, 10), "VERIF_TWO_WALLETS": ctx.pick(6, 40)},
                     label="coordination", timeout=ctx.pick(900, 3000))
     ctx.absorb(go)
+    for name in ("calls", "twowallets"):
+        if name not in go.reports:
+            ctx.broken("harness report %s missing" % name)
     cnt = go.reports["calls"].get("counters") or {}
+    if cnt.get("kept_slices", 0) < 200 and not ctx.violations:
+        ctx.broken("too few checklists kept for the aliasing check: %s" % cnt.get("kept_slices"))
     if (cnt.get("heartbeat_seeds", 0) < 1 or cnt.get("seeds", 0) < 10) and not ctx.violations:
         ctx.broken("seed selection too small: %s" % {k: cnt.get(k) for k in ("seeds", "heartbeat_seeds")})
     if cnt.get("executors", 0) < 20 and not ctx.violations:
@@ -83,7 +94,9 @@ def run(ctx):
              "same set); seeds (quick 24, thorough 100 wallet x block-hash pairs, 4 / 16 with a heartbeat draw) served in order by member 0, "
              "reversed by member 1, as a shuffled 2/3 subset by member 2; every 5th question asked twice; fresh-executor controls (thorough: all "
              "340 lists on fresh executors for 2 seeds); getSeed on 2 blocks carrying the hash plus a block without hash; getActionsChecklist for "
-             "17 blocks; non-trivial = repeated / unsorted list, a call on an executor that already served calls, window index > 0",
+             "17 blocks, every returned checklist (and, for every other one, the allowed-actions slice append(checklist, Noop) as coordinate() builds it) "
+             "kept and ALL of them re-read after every later call on any executor; plus the real coordinate() of one node following two wallets at "
+             "windows with index divisible by 4 whose seeds draw the heartbeat differently (quick 6, thorough 40 block hashes x both start orders); non-trivial = repeated / unsorted list, a call on an executor that already served calls, window index > 0",
         assumptions=["model operators are mapped order-preservingly to concrete addresses (getLeader sorts by address string)",
                      "SHA-256 is treated as injective on the inputs used",
                      "any fixed PRNG outcome per seed is accepted; the distribution (uniform leader, 1/16 heartbeat) is not checked"],
